@@ -14,12 +14,37 @@ from props.base import NAN, Prop, chunks, dec, decs, enc, encs
 F = "f"
 
 
-def mk_frame(col, name=F):
+def mk_index(n, kind):
+    """row index of a frame: default RangeIndex, offset ints, a permutation of 0..n-1, or strings"""
+    if kind == "offset":
+        return [i + 1000 for i in range(n)]
+    if kind == "perm":
+        return [(i * 7919 + 13) % n if math.gcd(7919, n) == 1 else (n - 1 - i) for i in range(n)]
+    if kind == "str":
+        return [f"r{i:05d}" for i in range(n)]
+    return None
+
+
+def mk_frame(col, name=F, index=None):
     import pandas as pd
     vals = decs(col)
     if all(isinstance(v, (int, float)) for v in vals):
-        return pd.DataFrame({name: np.array(vals, dtype=float)})
-    return pd.DataFrame({name: pd.Series(vals, dtype=object)})
+        df = pd.DataFrame({name: np.array(vals, dtype=float)})
+    else:
+        df = pd.DataFrame({name: pd.Series(vals, dtype=object)})
+    idx = mk_index(len(vals), index)
+    if idx is not None:
+        df.index = idx
+    return df
+
+
+def mk_target(ys, index=None):
+    import pandas as pd
+    s = pd.Series(ys)
+    idx = mk_index(len(ys), index)
+    if idx is not None:
+        s.index = idx
+    return s
 
 
 def build_carver(case, **extra):
@@ -65,13 +90,14 @@ def run_fit(case):
     """shared by C01/C02: returns the observation dict"""
     import pandas as pd
     out = {}
-    X, y = mk_frame(case["X"]), pd.Series(case["y"])
+    ik = case.get("index")
+    X, y = mk_frame(case["X"], index=ik), mk_target(case["y"], ik)
     has_dev = case.get("Xdev") is not None
-    Xd, yd = (mk_frame(case["Xdev"]), pd.Series(case["ydev"])) if has_dev else (None, None)
+    Xd, yd = (mk_frame(case["Xdev"], index=ik), mk_target(case["ydev"], ik)) if has_dev else (None, None)
     # ---- base modalities through the real Discretizer ----------------------------------------
     try:
         disc = build_discretizer(case)
-        xb = disc.fit_transform(mk_frame(case["X"]), y)
+        xb = disc.fit_transform(mk_frame(case["X"], index=ik), y)
         if F not in disc.features:
             out["base"] = "dropped"
         else:
@@ -93,7 +119,7 @@ def run_fit(case):
                            "leaders": encs([v for v in order if v != str_nan])}
             if has_dev:
                 try:
-                    xdb = disc.transform(mk_frame(case["Xdev"]), yd)
+                    xdb = disc.transform(mk_frame(case["Xdev"], index=ik), yd)
                     dv = [[] for _ in range(m)]
                     dvn = []
                     for lab, t in zip(xdb[F], yd):
@@ -133,10 +159,10 @@ def run_fit(case):
                 groups.append(sorted(g))
         out["groups"] = groups
         # transform outputs for the C02 oracle
-        xt = carver.transform(mk_frame(case["X"]))
+        xt = carver.transform(mk_frame(case["X"], index=ik))
         out["train_labels"] = encs(list(xt[F]))
         if has_dev:
-            xdt = carver.transform(mk_frame(case["Xdev"]))
+            xdt = carver.transform(mk_frame(case["Xdev"], index=ik))
             out["dev_labels"] = encs(list(xdt[F]))
     return out
 
@@ -206,12 +232,15 @@ def gen_case(rng, kind=None):
     case = {"carver": carver, "sort_by": rng.choice(["tschuprowt", "cramerv"]) if carver == "binary" else "kruskal",
             "ftype": ftype, "min_freq": min_freq, "max_n_mod": max_n_mod, "dropna": dropna,
             "output_dtype": rng.choice(["float", "str"]), "X": encs(col), "y": y, "kind": kind,
-            "order": encs(vals) if ftype == "ordinal" else None, "Xdev": None, "ydev": None}
+            "order": encs(vals) if ftype == "ordinal" else None, "Xdev": None, "ydev": None,
+            "index": rng.choice([None, None, "offset", "perm", "str"])}
     # min_freq_mod: default, or exactly on / next to a frequency present in the data
     r = rng.random()
     ntot = len(col)
     if r < 0.35:
         case["min_freq_mod"] = None
+    elif r < 0.47:
+        case["min_freq_mod"] = rng.choice([0, 0.0, 0, 1e-9])   # explicit "no minimum" (0 is falsy)
     else:
         c0 = rng.choice(cnt) + (rng.choice(cnt) if rng.random() < 0.5 else 0)
         denom = ntot if (dropna or not n_nan) else ntot - n_nan
